@@ -360,6 +360,15 @@ Proof.
   apply decode_joint; [exact Hmjd|lia|lia|lia].
 Qed.
 
+Example roundtrip_example :
+  run_iter parse_dvb_time (bytes_of_items (enc_dvb_time 1577882096)) = Ok 1577882096 (* 2020-01-01 12:34:56 UTC *).
+Proof. vm_compute. reflexivity. Qed.
+
+Example decode_joint_example :
+  run_iter parse_dvb_time [192; 121; 18; 69; 0] = Ok 750516300 (* EN 300 468 example: MJD 0xC079 = 1993-10-13, 12:45:00 *)
+  /\ civil_of_mjd 49273 = (1993, 10, 13) /\ spec_unix 49273 12 45 0 = 750516300.
+Proof. vm_compute. repeat split. Qed.
+
 (* ================= durations, decode ================= *)
 
 (* all 10^6 BCD digit strings hh mm ss (each 00..99) *)
